@@ -23,7 +23,8 @@ from .c01 import LCLASSES, c_outcome
 
 IMPORTS = "From LQ Require Import Core.Value Core.Syntax Core.Render."
 NEEDED = ["theories/Core/Value.v", "theories/Core/Syntax.v", "theories/Core/Render.v",
-          "theories/Proofs/Render_proofs.v"]
+          "theories/Proofs/Render_proofs.v", "theories/Proofs/Render_control.v",
+          "theories/Proofs/Render_lambda.v"]
 
 POOL = ["a", "b", "c", "n", "s", "t"]
 
